@@ -39,7 +39,11 @@ pub struct Setup<A: Alphabet> {
 
 pub fn setup<A: Alphabet>(rng: &mut Rng, rep: &mut Report, max_m: usize) -> Option<Setup<A>> {
     let k = k_of::<A>();
-    let m = rng.range(2, max_m);
+    // 8 % of the DNA cases: a longer motif (7-8 columns, still enumerated exactly) in which four or
+    // five positions are NEARLY flat - all their cells fall into one bin of the coarsest
+    // granularity, with different remainders - next to informative ones
+    let nearly_flat_mode = k == 5 && max_m >= 6 && rng.chance(0.08);
+    let m = if nearly_flat_mode { rng.range(7, 10) } else { rng.range(2, max_m) };
     let mut zero_freq = false;
     let mut wild_weight = false;
     let (bgv, bg) = if rng.chance(0.12) {
@@ -90,7 +94,7 @@ pub fn setup<A: Alphabet>(rng: &mut Rng, rep: &mut Report, max_m: usize) -> Opti
     };
     // (log-odds under a background with zero entries would have -inf non-wildcard cells, which the
     // property excludes)
-    let (pssm, fam): (ScoringMatrix<A>, &'static str) = if !zero_freq && rng.chance(0.7) {
+    let (pssm, fam): (ScoringMatrix<A>, &'static str) = if !zero_freq && !nearly_flat_mode && rng.chance(0.7) {
         let mut dm = lightmotif::dense::DenseMatrix::<u32, A::K>::new(m);
         for i in 0..m {
             let hi = if rng.chance(0.3) { 4 } else { 30 };
@@ -102,8 +106,21 @@ pub fn setup<A: Alphabet>(rng: &mut Rng, rep: &mut Report, max_m: usize) -> Opti
         let pseudo = *rng.pick(&[0.1f32, 0.25, 1.0]);
         (cm.to_freq(pseudo).to_scoring(bg.clone()), "log_odds")
     } else {
-        let kind = *rng.pick(&[MatKind::Finite, MatKind::SmallInt, MatKind::FewValued]);
+        // (the informative rows of the nearly-flat class need rounding remainders: real-valued cells)
+        let kind = if nearly_flat_mode { MatKind::Finite } else { *rng.pick(&[MatKind::Finite, MatKind::SmallInt, MatKind::FewValued]) };
         let mut rows = gen_matrix(rng, k, m, kind);
+        if nearly_flat_mode {
+            let n_flat = rng.range(4, 6.min(m - 3));
+            let mut idx: Vec<usize> = (0..m).collect();
+            rng.shuffle(&mut idx);
+            for &i in idx[..n_flat].iter() {
+                let base = (rng.range(0, 40) as f32 - 20.0) * 0.1 + 0.001;
+                for x in rows[i].iter_mut().take(k - 1) {
+                    *x = base + rng.f32_in(0.0, 0.097);
+                }
+            }
+            rep.cover("matrix.several_nearly_flat_rows");
+        }
         // the wildcard column may be -inf (library conversions) or finite (ScoringMatrix::new, Python)
         let wild_mode = rng.below(3);
         for r in rows.iter_mut() {
@@ -523,7 +540,10 @@ fn case13<A: Alphabet>(case: u64, rng: &mut Rng, rep: &mut Report, alpha: &str, 
     let bg_sum: f64 = st.bgv.iter().map(|&x| x as f64).sum();
     let noise = EPS + 2.0 * m * (bg_sum - 1.0).abs();
     let mut ps: Vec<(f64, &str)> = Vec::new();
-    for _ in 0..6 {
+    // (long motifs - the nearly-flat-rows class - get many in-between p-values: their refinement
+    // windows are the tight ones)
+    let n_between = if st.m >= 7 { 36 } else { 6 };
+    for _ in 0..n_between {
         let i = rng.below(ex.tail.len());
         let t = ex.tail[i].min(1.0);
         if t > 0.0 && t < 1.0 {
@@ -719,7 +739,9 @@ pub fn run12(cfg: &Config) -> Report {
     let n = cfg.n(1500, 40_000) as u64;
     let max_dna = if cfg.thorough() { 8 } else { 6 };
     run_cases(cfg, n, |case, rng, rep| {
-        if case % 10 == 7 {
+        if case % 20 == 13 {
+            case12::<crate::iowide::Wide40>(case, rng, rep, "user_defined_40", 2)
+        } else if case % 10 == 7 {
             case12::<crate::model::Abc6>(case, rng, rep, "user_defined_6", 5)
         } else if case % 5 == 4 {
             case12::<Protein>(case, rng, rep, "protein", 3)
@@ -733,7 +755,9 @@ pub fn run13(cfg: &Config) -> Report {
     let n = cfg.n(2500, 80_000) as u64;
     let max_dna = if cfg.thorough() { 8 } else { 6 };
     run_cases(cfg, n, |case, rng, rep| {
-        if case % 10 == 7 {
+        if case % 20 == 13 {
+            case13::<crate::iowide::Wide40>(case, rng, rep, "user_defined_40", 2)
+        } else if case % 10 == 7 {
             case13::<crate::model::Abc6>(case, rng, rep, "user_defined_6", 5)
         } else if case % 5 == 4 {
             case13::<Protein>(case, rng, rep, "protein", 3)
